@@ -74,3 +74,20 @@ PROPS["C03"] = dict(
     min_labels=dict(quick=dict(split_inside_token=10000, stream_resumed=2000, src_mutated=3000, src_soup=2000)),
     assumptions=["texts <= 400 bytes in the generated modes", "with VALIDATE_UTF8 a chunk ending inside a multi-byte character is an error for that chunk (one-shot on the prefix errs too), so the premise 'more input needed' does not hold and nothing is demanded (label utf8_chunk_mid_char)"],
 )
+
+PROPS["C04"] = dict(
+    harness="C04_total.cpp", level="exploration",
+    technique="stateful property testing of parse/reset histories on arbitrary bytes under ASan/UBSan with exact-size input blocks, differential against a brand-new parser after every reset, exact live-allocation accounting; libFuzzer on the same history decoder",
+    level_text="generated histories (valid, mutated, concatenated, token-soup and raw byte chunks; 1..n chunks; flags incl. garbage bits; depth 1..64; "
+               "len exact / -1 / < -1; resets after every kind of outcome): every call must satisfy the outcome trichotomy and end<=len, ASan/UBSan "
+               "watch every access (inputs are exact-size heap blocks), a reset parser is fed in lock-step with a new one and must agree call by call, "
+               "and all memory is released after json_tokener_free",
+    level_note="termination is observed as 'every generated case returned'; a libFuzzer timeout is inconclusive, not a violation; the strlen>INT32_MAX arm of the size guard needs a 2 GiB input and is not exercised",
+    rule="history of parse calls and resets on one tokener; non-trivial = some call did not succeed, or a text was fed in >1 chunk, or a reset follows a non-success outcome; distinct by hash of (flags, depth, chunk sequence, resets)",
+    quick=[dict(mode="hist", cases=150000, workers=8, maxbytes=2500)],
+    thorough=[dict(mode="hist", cases=12000000, workers=16, maxbytes=4000),
+              dict(mode="hist", fuzz=True, secs=400, jobs=8, max_len=1024),
+              dict(mode="bytes", fuzz=True, secs=400, jobs=8, max_len=256, dict="fuzz/tokener_parse_ex.dict")],
+    min_labels=dict(quick=dict(reset_after_nonsuccess=20000, small_depth=20000, garbage_flags=10000)),
+    assumptions=["flags are constant over one history", "inputs <= 400 bytes per text in generated modes (the code imposes only INT32_MAX)"],
+)
